@@ -384,7 +384,7 @@ func (c *c06sim) quiesce() {
 func runC06(r *Run, stratum string) *Violation {
 	g := r.Gen()
 	c := &c06sim{r: r, snaps: map[string]snapInfo{}, hist: map[string]*history{}}
-	id1 := hexID(g.Bytes("id1", 20))
+	id1 := "1" + hexID(g.Bytes("id1", 20))[1:] // first nibble makes ids of one run distinct by construction
 	h1 := &history{id: id1, salt: 1}
 	c.cur = h1
 	c.hist[id1] = h1
@@ -446,7 +446,7 @@ func runC06(r *Run, stratum string) *Violation {
 		if sw < c.src.Repl.BacklogBase {
 			sw = c.src.Repl.BacklogBase
 		}
-		id2 := hexID(g.Bytes("id2", 20))
+		id2 := "2" + hexID(g.Bytes("id2", 20))[1:]
 		h2 := &history{id: id2, salt: 2, parent: h1, shared: sw}
 		c.hist[id2] = h2
 		c.prev, c.cur = h1, h2
@@ -459,7 +459,7 @@ func runC06(r *Run, stratum string) *Violation {
 		c.grow(1 + int64(g.Choose("growh2", 400)))
 		desc += fmt.Sprintf("+failover@%d", sw)
 	case strings.HasSuffix(stratum, "newid"):
-		id3 := hexID(g.Bytes("id3", 20))
+		id3 := "3" + hexID(g.Bytes("id3", 20))[1:]
 		h3 := &history{id: id3, salt: 3}
 		c.hist[id3] = h3
 		c.prev, c.cur = nil, h3
@@ -495,7 +495,7 @@ func runC06(r *Run, stratum string) *Violation {
 			desc += "+pos-forward"
 		}
 	case 4:
-		c.stub.stored.RunId = hexID([]byte("unknown-unknown-unknown"))
+		c.stub.stored.RunId = "f" + hexID([]byte("unknown-unknown-unknown"))[1:]
 		desc += "+pos-unknown-id"
 	}
 	r.Sample = fmt.Sprintf("%s: position before %s@%d, now %s@%d, source id=%s id2=%s second=%d backlog=(%d,%d]", desc, shortID(positionBefore.RunId), positionBefore.Offset,
